@@ -63,8 +63,15 @@ def seeded_cases(rng, n):
         elif kind == "macro_named":
             files["x.svh"] = [t(), pp.nl()]
             top = [pp.define("FN", None, [pp.bt("str", '"x.svh"')]), pp.nl(), t(), pp.nl(), pp.inc("FN", form=2), pp.nl(), t(), pp.nl()]
-            if rng.random() < 0.3:
+            r_ = rng.random()
+            if r_ < 0.3:
                 top[0] = pp.define("OTHER", None, [pp.bt("lit", "o")])   # FN undefined => DefineNotFound
+            elif r_ < 0.45:
+                top[0] = pp.define("FN", None, None)                      # no body: the name is empty => Include{File{""}}
+            elif r_ < 0.55:
+                top[0] = pp.define("FN", None, [pp.bt("lit", "x.svh")])   # unquoted name
+            elif r_ < 0.65:
+                top[0] = pp.define("FN", None, [pp.bt("str", '"nowhere.svh"')])
         elif kind == "twice":
             files["x.svh"] = [t(), pp.nl(), pp.ifndef("GUARD"), pp.nl(), pp.define("GUARD", None, None), pp.nl(), t(), pp.nl(), pp.endif(), pp.nl()]
             top = [pp.inc("x.svh"), pp.nl(), t(), pp.nl(), pp.inc("x.svh"), pp.nl(), pp.ifdef("GUARD"), t(), pp.endif(), pp.nl()]
